@@ -2,6 +2,7 @@ import PlcProofs.Lemmas.Climb
 import PlcProofs.Lemmas.MirrorExpr
 import PlcProofs.Lemmas.MirrorStmt
 import PlcProofs.Lemmas.MirrorLib
+import PlcProofs.Lemmas.MirrorVars
 import PlcModel.Parse.Pou
 
 /-!
@@ -36,6 +37,7 @@ What is proved here:
   behind the model's `parse_program`) reads the token list of every library made of programs
   `PROGRAM name statements END_PROGRAM` (no variable blocks; the statements above) back to exactly the library that was
   written — the programs in source order, each with its name and its statements; the whole input is consumed;
+  `mirror_library_roundtrip_vars` adds a VAR block of elementary-typed variables to each program;
 
 The executable mirror of the whole grammar (`PlcModel/Parse/*.lean`) is tied to `parse_program` by
 the correspondence check (every fixture, every production of the reference grammar, every ordered
@@ -133,6 +135,20 @@ theorem mirror_library_roundtrip (ps : List MX.Prog) (h : ∀ p ∈ ps, p.WF) :
     Parse.library (ps.flatMap MX.Prog.toks) =
       some (.n "Library" [("elements", .l (ps.map fun p => Sx.t "ProgramDeclaration" [p.sx]))]) :=
   MX.library_reads ps h
+
+/-- The same for libraries whose programs may declare variables: `PROGRAM name VAR n1 : T1; … END_VAR statements
+END_PROGRAM` (one VAR block of variables of elementary type without initial values; `T` any token that
+`elementary_type_name` reads, INT and BOOL are shown to qualify): every variable comes back in order with its name,
+class `Var`, no qualifier and its type. -/
+theorem mirror_library_roundtrip_vars (ps : List MX.AnyProg) (h : ∀ p ∈ ps, p.WF) :
+    Parse.library (ps.flatMap MX.AnyProg.toks) =
+      some (.n "Library" [("elements", .l (ps.map fun p => Sx.t "ProgramDeclaration" [p.sx]))]) :=
+  MX.library_reads_any ps h
+
+/-- non-vacuity: `n : INT;` meets `VarD.WF` -/
+example : (MX.VarD.mk ⟨false, "Identifier", 0, 0, 0, 0, ['n']⟩ ⟨false, "Colon", 0, 0, 0, 0, [':']⟩
+    ⟨false, "Int", 0, 0, 0, 0, "INT".toList⟩ "INT" ⟨false, "Semicolon", 0, 0, 0, 0, [';']⟩).WF :=
+  ⟨rfl, rfl, rfl, MX.elementary_int _ rfl, by decide, by decide, by decide, by decide, by decide, by decide⟩
 
 /-- non-vacuity: `PROGRAM main x := c; END_PROGRAM` meets `Prog.WF` -/
 example : (MX.Prog.mk ⟨false, "Program", 0, 0, 0, 0, "PROGRAM".toList⟩ ⟨false, "Identifier", 0, 0, 0, 0, "main".toList⟩
